@@ -1,6 +1,6 @@
 SPECIFICATION Spec
 CONSTANTS
-  Catalogue <- CatQuick
+  Catalogue <- CatOne
   DiskC = "A"
   DiskR = "A"
   Feat = {"health", "msg", "poll", "stop"}
@@ -8,6 +8,7 @@ CONSTANTS
   MaxCum = 0
   Steps = {1}
   Outcomes = {}
+  ZeroReports = "keys"
   RetryFailed = TRUE
   Faithful = TRUE
 INVARIANTS TypeOK AppliedIsInForce FailedIsRefused EffectiveInForce Conservation NoDoubleCount StopUnhealthy
